@@ -3,7 +3,9 @@
    satisfiable and record concrete behaviour of the faithful model. *)
 From Coq Require Import ZArith List Bool Lia Sorted Field.
 From IBL.lib Require Import PyInt.
-From IBL.C20 Require Import Model Proofs.
+From IBL.C20 Require Import Model Proofs FloatRank.
+From Coq Require Import Reals.
+From Flocq Require Import Core.
 Import ListNotations.
 Open Scope Z_scope.
 
@@ -250,6 +252,26 @@ Proof.
 Qed.
 Print Assumptions C20_svd_npx_identity.
 
+(* The per-collection rank the SOURCE computes, int(rank * ind.size / nc) in binary64 (Python's int / int is
+   the correctly rounded quotient; int() of a non-negative float is its floor), IS the model's exact
+   floor svd_rank, for every nc, rank < 2^26 and size <= nc.  (Flocq; uses the classical-reals axioms of the
+   standard library.)  A pre-divided ratio (rank / nc) * size does not have this property (seeded change
+   C20-r3seed3: 3/47*47 -> 2). *)
+Theorem C20_svd_rank_float_exact : forall rank nc size : Z,
+  0 < nc < 2 ^ 26 -> 0 <= rank < 2 ^ 26 -> 0 <= size <= nc ->
+  Zfloor (rnd64 (IZR ((if rank =? 0 then nc / 4 else rank) * size) / IZR nc)) = svd_rank rank nc size.
+Proof.
+  intros rank nc size Hnc Hrank Hsize. unfold svd_rank.
+  assert (Hr : 0 <= (if rank =? 0 then nc / 4 else rank) < 2 ^ 26).
+  { destruct (rank =? 0); [|lia]. split; [apply Z.div_pos; lia | apply Z.div_lt_upper_bound; lia]. }
+  apply float_floor_div; nia.
+Qed.
+Print Assumptions C20_svd_rank_float_exact.
+
+Example svd_rank_examples :
+  svd_rank 3 47 47 = 3 /\ svd_rank 2 98 49 = 1 /\ svd_rank 0 384 96 = 24 /\ svd_rank 5 12 7 = 2.
+Proof. vm_compute. repeat split; reflexivity. Qed.
+
 (* a single plane wave A u^i v^j on a complete regular grid fills the block trajectory
    matrix with an outer product f(row) * g(column): rank one. *)
 Theorem C20_plane_wave_rank1 :
@@ -301,3 +323,52 @@ Proof.
      assert (Hm' : m = 0%nat \/ m = 1%nat) by lia;
      destruct Hk' as [-> | ->]; destruct Hm' as [-> | ->]; apply qc_eq; vm_compute; reflexivity).
 Qed.
+
+(* ---------------------------------------------------------------------------
+   further non-vacuity examples (hypotheses of the field / wrapper theorems are satisfiable) *)
+(* rolling_constant: a (1,2,1) window over Qc *)
+Example rolling_constant_satisfiable :
+  rolling Qc 0%Qc Qcplus Qcmult Qcdiv [qc 1; qc 2; qc 1] (repeat (qc 7) 6) = repeat (qc 7) 6.
+Proof.
+  apply (rolling_constant Qc 0%Qc 1%Qc Qcplus Qcmult Qcminus Qcopp Qcdiv Qcinv Qcft); [|cbn; lia].
+  intro H. apply (f_equal this) in H. vm_compute in H. discriminate.
+Qed.
+
+(* characteristic 0 in Qc *)
+Lemma rofnat_Qc n : (this (rofnat Qc 0%Qc 1%Qc Qcplus n) == inject_Z (Z.of_nat n))%Q.
+Proof.
+  induction n as [|n IH]; [reflexivity|]. cbn [rofnat]. unfold Qcplus, Q2Qc. cbn [this].
+  rewrite Qred_correct, IH. rewrite Nat2Z.inj_succ. unfold Z.succ. rewrite inject_Z_plus. cbn. ring.
+Qed.
+Lemma Qc_char0 n : (0 < n)%nat -> rofnat Qc 0%Qc 1%Qc Qcplus n <> 0%Qc.
+Proof.
+  intros Hn H. pose proof (rofnat_Qc n) as E. rewrite H in E. cbn [this] in E.
+  unfold Qeq, inject_Z in E. cbn in E. lia.
+Qed.
+
+(* denoise identity, 3 iterations, on the 2 x 4 layout of traj_example with derank = identity *)
+Example denoise_identity_satisfiable :
+  let entries := [2; 0; 4; 2; 6; 4; 3; 1; 5; 3; 7; 5] in
+  let w := map qc [3; -1; 4; 1; -5; 9; 2; -6] in
+  denoise_n Qc 0%Qc 1%Qc Qcplus Qcdiv (fun t => t) entries 3 w = w.
+Proof.
+  intros entries w.
+  apply (denoise_n_identity Qc 0%Qc 1%Qc Qcplus Qcmult Qcminus Qcopp Qcdiv Qcinv Qcft); [exact Qc_char0 | | reflexivity | lia].
+  intros k Hk. cbn [w map length] in Hk.
+  assert (Hc : k = 0 \/ k = 1 \/ k = 2 \/ k = 3 \/ k = 4 \/ k = 5 \/ k = 6 \/ k = 7) by lia.
+  destruct Hc as [-> | [-> | [-> | [-> | [-> | [-> | [-> | ->]]]]]]]; vm_compute; reflexivity.
+Qed.
+
+(* svd wrapper with the identity as per-collection reconstruction *)
+Example svd_npx_identity_satisfiable :
+  svd_npx (-1) (fun _ rows => rows) [10; 11; 12; 13; 14; 15] [2; 1; 2; 1; 1; 5] 4 = [10; 11; 12; 13; 14; 15] /\
+  svd_groups [2; 1; 2; 1; 1; 5] 4 = [([1; 3; 4], 2); ([0; 2], 1); ([5], 0)].
+Proof. vm_compute. split; reflexivity. Qed.
+
+(* plane wave over Z: A = 3, u = 2, v = 5 on a 3 x 4 grid, element (r, c) = (4, 2) *)
+Example plane_wave_example :
+  let nry := traj_rows 4 in let ncy := traj_cols 4 in
+  3 * zpw Z 1 Z.mul 2 (traj_at 3 (4 / nry) (2 / ncy)) * zpw Z 1 Z.mul 5 (traj_at 4 (4 mod nry) (2 mod ncy))
+  = (3 * zpw Z 1 Z.mul 2 (4 / nry) * zpw Z 1 Z.mul 5 (4 mod nry))
+    * (zpw Z 1 Z.mul 2 (traj_cols 3 - 1 - 2 / ncy) * zpw Z 1 Z.mul 5 (ncy - 1 - 2 mod ncy)).
+Proof. vm_compute. reflexivity. Qed.
